@@ -60,6 +60,7 @@ GUARDS = {
 def run(ck: Checker, prog: Program, tier: str):
     cls = prog.cls("HvsrTraditional")
     ck.guard(S.check_masked_reads, ck, prog, cls, "C05.R1", floor=4)
+    ck.guard(S.check_mask_properties, ck, prog, "C05.R1")
     ck.guard(S.check_accessor_purity, ck, prog, cls, "C05.R2", 13)
     ck.guard(S.check_estimators, ck, prog, "C05.R3")
     ck.guard(S.check_alias_discipline, ck, prog, "C05.R3", floor=3)
